@@ -83,40 +83,30 @@ class TcpClient(object):
         messages_mlat = []
         msg = []
         i = 0
+        start = 0
 
         # process the buffer until the last divider <esc> 0x1a
-        # then, reset the self.buffer with the remainder
+        # then, reset the self.buffer with the raw bytes of the unfinished frame
 
         while i < len(self.buffer):
-            if self.buffer[i : i + 2] == [0x1A, 0x1A]:
+            if self.buffer[i] != 0x1A:
+                msg.append(self.buffer[i])
+            elif i == len(self.buffer) - 1:
+                # a trailing <esc> is either a divider or half of an escaped
+                # 0x1a, decide in the next reading cycle
+                break
+            elif self.buffer[i + 1] == 0x1A:
                 msg.append(0x1A)
                 i += 1
-            elif (i == len(self.buffer) - 1) and (self.buffer[i] == 0x1A):
-                # special case where the last bit is 0x1a
-                msg.append(0x1A)
-            elif self.buffer[i] == 0x1A:
-                if i == len(self.buffer) - 1:
-                    # special case where the last bit is 0x1a
-                    msg.append(0x1A)
-                elif len(msg) > 0:
+            else:
+                if len(msg) > 0:
                     messages_mlat.append(msg)
                     msg = []
-            else:
-                msg.append(self.buffer[i])
+                start = i
             i += 1
 
-        # save the reminder for next reading cycle, if not empty
-        if len(msg) > 0:
-            reminder = []
-            for i, m in enumerate(msg):
-                if (m == 0x1A) and (i < len(msg) - 1):
-                    # rewind 0x1a, except when it is at the last bit
-                    reminder.extend([m, m])
-                else:
-                    reminder.append(m)
-            self.buffer = [0x1A] + msg
-        else:
-            self.buffer = []
+        # save the raw (still escaped) reminder for next reading cycle
+        self.buffer = self.buffer[start:]
 
         # extract messages
         messages = []
@@ -170,40 +160,30 @@ class TcpClient(object):
         messages_mlat = []
         msg = []
         i = 0
+        start = 0
 
         # process the buffer until the last divider <esc> 0x1a
-        # then, reset the self.buffer with the remainder
+        # then, reset the self.buffer with the raw bytes of the unfinished frame
 
         while i < len(self.buffer):
-            if self.buffer[i : i + 2] == [0x1A, 0x1A]:
+            if self.buffer[i] != 0x1A:
+                msg.append(self.buffer[i])
+            elif i == len(self.buffer) - 1:
+                # a trailing <esc> is either a divider or half of an escaped
+                # 0x1a, decide in the next reading cycle
+                break
+            elif self.buffer[i + 1] == 0x1A:
                 msg.append(0x1A)
                 i += 1
-            elif (i == len(self.buffer) - 1) and (self.buffer[i] == 0x1A):
-                # special case where the last bit is 0x1a
-                msg.append(0x1A)
-            elif self.buffer[i] == 0x1A:
-                if i == len(self.buffer) - 1:
-                    # special case where the last bit is 0x1a
-                    msg.append(0x1A)
-                elif len(msg) > 0:
+            else:
+                if len(msg) > 0:
                     messages_mlat.append(msg)
                     msg = []
-            else:
-                msg.append(self.buffer[i])
+                start = i
             i += 1
 
-        # save the reminder for next reading cycle, if not empty
-        if len(msg) > 0:
-            reminder = []
-            for i, m in enumerate(msg):
-                if (m == 0x1A) and (i < len(msg) - 1):
-                    # rewind 0x1a, except when it is at the last bit
-                    reminder.extend([m, m])
-                else:
-                    reminder.append(m)
-            self.buffer = [0x1A] + msg
-        else:
-            self.buffer = []
+        # save the raw (still escaped) reminder for next reading cycle
+        self.buffer = self.buffer[start:]
 
         # extract messages
         messages = []
